@@ -77,8 +77,8 @@ def _process_step_expression(
                 case 'union':
                     new_target_assets = lh_targets
                     for ag_node in rh_targets:
-                        if next((lnode for lnode in new_target_assets \
-                            if lnode.id != ag_node.id), None):
+                        if not any(lnode.id == ag_node.id \
+                                for lnode in new_target_assets):
                             new_target_assets.append(ag_node)
 
                 case 'intersection':
